@@ -444,3 +444,85 @@ func TestC06_RealServer(t *testing.T) {
 		verdict(t, c, res, resp.StatusCode, "real-server")
 	})
 }
+
+// FuzzC06_RawRequest: arbitrary request bytes, parsed exactly as net/http's server parses
+// them, are handed once to a bare handler and once to the same handler behind the buffer:
+// the buffered handler must see the same method, URL, headers and body bytes, with the
+// true length declared and no chunked transfer-encoding; when the body cannot be read
+// (broken framing) the buffer must answer with an error status without invoking the handler.
+func FuzzC06_RawRequest(f *testing.F) {
+	for _, s := range []string{
+		"POST /a?b=1 HTTP/1.1\r\nHost: x\r\nContent-Length: 5\r\n\r\nhello",
+		"PUT /c HTTP/1.1\r\nHost: x\r\nTransfer-Encoding: chunked\r\nX-A: 1\r\nX-A: 2\r\n\r\n3\r\nabc\r\n2;ext=1\r\nde\r\n0\r\n\r\n",
+		"POST / HTTP/1.1\r\nHost: x\r\nTransfer-Encoding: chunked\r\n\r\n0\r\n\r\n",
+		"GET /%2F/x HTTP/1.1\r\nHost: x\r\n\r\n",
+		"POST / HTTP/1.1\r\nHost: x\r\nTransfer-Encoding: chunked\r\n\r\n5\r\nab",
+		"POST / HTTP/1.1\r\nHost: x\r\nContent-Length: 10\r\n\r\nshort",
+		"POST / HTTP/1.0\r\nContent-Length: 3\r\n\r\nabc",
+		"POST / HTTP/1.1\r\nHost: x\r\nTransfer-Encoding: chunked\r\nTrailer: X-T\r\n\r\n1\r\na\r\n0\r\nX-T: v\r\n\r\n",
+	} {
+		f.Add([]byte(s), uint8(2))
+	}
+	f.Fuzz(func(t *testing.T, raw []byte, thrSel uint8) {
+		if len(raw) > 1<<16 {
+			t.Skip()
+		}
+		parse := func() *http.Request {
+			r, err := http.ReadRequest(bufio.NewReader(bytes.NewReader(raw)))
+			if err != nil {
+				return nil
+			}
+			return r
+		}
+		direct := parse()
+		if direct == nil {
+			t.Skip()
+		}
+		want, readErr := io.ReadAll(direct.Body)
+		wantSnap := snap(direct)
+		thr := []int64{1, 7, 512, 1 << 20}[thrSel%4]
+		invoked := 0
+		var problems []string
+		inner := http.HandlerFunc(func(w http.ResponseWriter, r *http.Request) {
+			invoked++
+			got, err := io.ReadAll(r.Body)
+			s := snap(r)
+			if s.method != wantSnap.method || s.url != wantSnap.url || s.host != wantSnap.host || strings.Join(s.headers, "\n") != strings.Join(wantSnap.headers, "\n") {
+				problems = append(problems, fmt.Sprintf("request differs: got %+v want %+v", s, wantSnap))
+			}
+			if err != nil || !bytes.Equal(got, want) {
+				problems = append(problems, fmt.Sprintf("body differs: got %d bytes (err %v), the bare handler reads %d", len(got), err, len(want)))
+			}
+			if r.ContentLength != int64(len(want)) {
+				problems = append(problems, fmt.Sprintf("ContentLength %d, body has %d bytes", r.ContentLength, len(want)))
+			}
+			for _, te := range r.TransferEncoding {
+				if strings.EqualFold(te, "chunked") {
+					problems = append(problems, "TransferEncoding still chunked")
+				}
+			}
+		})
+		b, err := buffer.New(inner, buffer.MemRequestBodyBytes(thr))
+		if err != nil {
+			t.Fatal(err)
+		}
+		rec := httptest.NewRecorder()
+		b.ServeHTTP(rec, parse())
+		if readErr != nil {
+			if invoked != 0 {
+				t.Fatalf("the request body cannot be read (%v) but the buffer invoked the handler (request %q)", readErr, raw)
+			}
+			if rec.Code < 400 {
+				t.Fatalf("the request body cannot be read (%v) but the buffer answered %d (request %q)", readErr, rec.Code, raw)
+			}
+		} else {
+			if invoked != 1 {
+				t.Fatalf("handler invoked %d times, status %d (request %q)", invoked, rec.Code, raw)
+			}
+			if len(problems) > 0 {
+				t.Fatalf("%s (request %q, MemRequestBodyBytes %d)", strings.Join(problems, "; "), raw, thr)
+			}
+		}
+		vstat.Case("fz"+string(raw), int64(len(want)) > thr, []string{"fuzz-raw-request"}, nil)
+	})
+}
